@@ -418,7 +418,10 @@ func (m *Manager) ApplyBatch(entries []*wal.Entry) error {
 			seqNum := startSeqNum
 
 			switch entry.Type {
-			case wal.OpTypePut:
+			case wal.OpTypePut, wal.OpTypeMerge:
+				// The WAL accepts merge entries; they carry a full value and are
+				// applied as puts (as the replication applier does). Skipping them
+				// here logged and acknowledged a write that never became visible.
 				m.memTablePool.Put(entry.Key, entry.Value, seqNum)
 			case wal.OpTypeDelete:
 				m.memTablePool.Delete(entry.Key, seqNum)
